@@ -513,7 +513,7 @@ package engine
 //@   ensures [C04.registered] result1 != nil ==> calls((*types.Map).Store) == 1 && arg((*types.Map).Store, 1, m) == bs.clients && arg((*types.Map).Store, 1, key) == arg(NewSocket, 1, id) && arg((*types.Map).Store, 1, value) == ret(NewSocket, 1)
 //@   ensures [C04.counted]  result1 != nil ==> calls((*sync/atomic.Uint64).Add) == 1 && arg((*sync/atomic.Uint64).Add, 1, delta) == 1
 //@   ensures [C04.closehook] result1 != nil ==> ncalls(types.EventEmitter.Once, evt == "close" && this == ret(NewSocket, 1)) == 1
-//@   ensures [C04.hookfirst] result1 != nil ==> before(types.EventEmitter.Once, 1, types.EventEmitter.Emit, 1)    // the registry's close hook is in place before the application hears of the session (and may close it)
+//@   ensures [C04.hookfirst,C12.hookfirst] result1 != nil ==> before(types.EventEmitter.Once, 1, types.EventEmitter.Emit, 1)    // the registry's close hook is in place before the application hears of the session (and may close it)
 //@   ensures [C06.order]    result1 != nil ==> before(NewSocket, 1, (*types.Map).Store, 1) && before((*types.Map).Store, 1, types.EventEmitter.Once, 1)
 //@   ensures [C06.protocol,C09.revisionagrees] result1 != nil ==> arg(NewSocket, 1, protocol) == (eio4 ? 4 : 3) && arg(NewSocket, 1, transport) == result1 && arg(NewSocket, 1, ctx) == ctx
 //@   ensures [C06.rev3,C09.rev3gate]     result1 != nil && !eio4 ==> bs.opts.AllowEIO3()
